@@ -161,6 +161,10 @@ func (s *Service) OnExecute(ctx context.Context, senderID uint64, account string
 			if err != nil {
 				return errors.Wrap(err, "failed to send contribution")
 			}
+			if uint32(len(recipientVVec)) != generation.threshold {
+				log.Warn().Int("entries", len(recipientVVec)).Uint32("threshold", generation.threshold).Msg("Contribution has incorrect verification vector length")
+				return fmt.Errorf("invalid contribution from %d", id)
+			}
 			if !verifyContribution(generation.id, recipientSecret, recipientVVec) {
 				log.Warn().Msg("Contribution invalid")
 				return fmt.Errorf("invalid contribution from %d", id)
@@ -319,6 +323,10 @@ func (s *Service) OnContribute(ctx context.Context,
 		return bls.SecretKey{}, nil, fmt.Errorf("contribution from non-participant %d", senderID)
 	}
 
+	if uint32(len(vVec)) != generation.threshold {
+		log.Warn().Uint64("sender", senderID).Str("account", account).Int("entries", len(vVec)).Uint32("threshold", generation.threshold).Msg("Received contribution with incorrect verification vector length")
+		return bls.SecretKey{}, nil, fmt.Errorf("invalid contribution from %d", senderID)
+	}
 	if !verifyContribution(generation.id, secret, vVec) {
 		log.Warn().Uint64("sender", senderID).Str("account", account).Msg("Received invalid contribution")
 		return bls.SecretKey{}, nil, fmt.Errorf("invalid contribution from %d", senderID)
